@@ -21,16 +21,22 @@ def tla_string(c):
     return '"' + c.replace('\\', '\\\\').replace('"', '\\"').replace('\t', '\\t').replace('\n', '\\n').replace('\r', '\\r') + '"'
 
 
-def gen_module(sigma):
+def tla_chars(text):
+    return '<<' + ', '.join(tla_string(c) for c in text) + '>>'
+
+
+def gen_module(sigma, pieces=None, prefix=''):
     """The character set goes into a generated module: TLC's cfg parser does not unescape \\" and \\\\ in strings."""
-    return ('---- MODULE MC_LexGen ----\nEXTENDS MC_Lex\nGenSigma == {%s}\n====\n' % ', '.join(tla_string(c) for c in sorted(sigma)))
+    return ('---- MODULE MC_LexGen ----\nEXTENDS MC_Lex\nGenSigma == {%s}\nGenPieces == {%s}\nGenPrefix == %s\n====\n'
+            % (', '.join(tla_string(c) for c in sorted(sigma)), ', '.join(tla_chars(p) for p in sorted(pieces or [])), tla_chars(prefix)))
 
 
 def make_cfg(sigma, maxlen, pieces=None, maxpieces=0, given=False, prop=False):
     L = ['SPECIFICATION Spec', 'CHECK_DEADLOCK FALSE',
          'CONSTANT Sigma <- GenSigma',
          'CONSTANT MaxLen = %d' % maxlen,
-         'CONSTANT Pieces <- %s' % (pieces or 'NoPieces'),
+         'CONSTANT Pieces <- %s' % ('GenPieces' if pieces else 'NoPieces'),
+         'CONSTANT Prefix <- GenPrefix',
          'CONSTANT MaxPieces = %d' % maxpieces,
          'CONSTANT Given <- %s' % ('GivenFromFile' if given else 'NoGiven'),
          'CONSTANT Keywords = %s' % grammar._val(KEYWORDS),
@@ -42,13 +48,13 @@ def make_cfg(sigma, maxlen, pieces=None, maxpieces=0, given=False, prop=False):
     return '\n'.join(L) + '\n'
 
 
-def enumerate_texts(sigma, maxlen, pieces=None, maxpieces=0, cache=True, timeout=3600, given=None, prop=False):
+def enumerate_texts(sigma, maxlen, pieces=None, maxpieces=0, cache=True, timeout=3600, given=None, prop=False, prefix=''):
     """{text: {'greedy': toks or None, 'others': [toks...], 'adj': bool}}, tlc stats.
     given: explicit list of input texts (then sigma/maxlen are ignored); prop: the texts are properties."""
     if given is not None:
         return _lex_given(sorted(set(given)), prop, timeout)
     cfg = make_cfg(sigma, maxlen, pieces, maxpieces, prop=prop)
-    gen = gen_module(sigma)
+    gen = gen_module(sigma, pieces, prefix)
     h = hashlib.sha256()
     for f in ('HplLex.tla', 'MC_Lex.tla'):
         with open(os.path.join(tlc.SPEC, f), 'rb') as fh:
@@ -140,6 +146,14 @@ def abstract(toks):
     return tuple(out)
 
 
+def abstract_prop(toks):
+    """Property level: channels -> t, aliases -> A; keywords and punctuation stay."""
+    out = []
+    for c, s in toks:
+        out.append('t' if c == 'CHAN' else 'A' if c == 'NAME' else s)
+    return tuple(out)
+
+
 class FillError(Exception):
     pass
 
@@ -147,7 +161,7 @@ class FillError(Exception):
 def fill(ast, toks, spelled_value):
     """Put the concrete names / numbers / variables / strings of `toks` into the tree the grammar machine assigned to
     the abstracted sentence.  The leaves are visited in source order, which is the order of HplGrammar!Tokens."""
-    leaves = [(c, s) for c, s in toks if c in ('NAME', 'NUM', 'VAR', 'STR')]
+    leaves = [(c, s) for c, s in toks if c in ('NAME', 'NUM', 'VAR', 'STR', 'CHAN')]
     it = iter(leaves)
 
     def nxt(cls):
@@ -191,9 +205,24 @@ def fill(ast, toks, spelled_value):
             d['function'] = nxt('NAME')
             d['arguments'] = rec(n['arguments'])
             return d
+        if c == 'HplSimpleEvent':
+            d['name'] = nxt('CHAN')
+            if n['alias'][0] == 'some':
+                d['alias'] = ['some', nxt('NAME')]
+            if n['predicate'].get('cls') != 'HplVacuousTruth':
+                raise FillError('event predicates are not supported at the property level')
+            return d
+        if c == 'HplPattern':
+            if n['max_time'][0] != 'inf':
+                raise FillError('time bounds are not supported at the property level')
+            first, second = ('behaviour', 'trigger') if n['pattern_type'] == 'REQUIREMENT' else ('trigger', 'behaviour')
+            d[first] = rec(n[first])
+            d[second] = rec(n[second])
+            return d
         order = {'HplBinaryOperator': ['operand1', 'operand2'], 'HplUnaryOperator': ['operand'], 'HplSet': ['values'],
                  'HplRange': ['min_value', 'max_value'], 'HplArrayAccess': ['array', 'index'],
-                 'HplPredicateExpression': ['expression']}.get(c)
+                 'HplPredicateExpression': ['expression'], 'HplEventDisjunction': ['event1', 'event2'],
+                 'HplScope': ['activator', 'terminator'], 'HplProperty': ['scope', 'pattern']}.get(c)
         if order is None:
             return d
         for k in order:
